@@ -49,9 +49,10 @@ Definition enums_ok (b : binds) (r : record) : bool :=
   forallb (fun x => match enum_field b (fst (fst x)) (rec_z r (fst (fst x))) with
                     | MappingError => false | _ => true end) b.
 
-(* stream.seek(off) on the BytesIO: past the end there is nothing to read *)
-Definition seek (img : list Z) (off : Z) : list Z :=
-  if off >? zlen img then [] else skipn (Z.to_nat off) img.
+(* stream.seek(off) on the BytesIO, as what a following read sees: past the end there is nothing to read
+   ([skipn] past the end is []; no length is computed, so a walk over thousands of records stays cheap
+   after extraction) *)
+Definition seek (img : list Z) (off : Z) : list Z := skipn (Z.to_nat off) img.
 
 (* common/utils.py struct_parse(struct, stream, stream_pos=off):
    stream.seek(off); struct.parse_stream(stream); ConstructError -> ELFParseError *)
@@ -66,7 +67,7 @@ Definition struct_parse_at (s : cstruct) (img : list Z) (off : Z) : res record :
      return s.decode('utf-8', errors='replace') if s else ''          (names are byte lists here) *)
 Definition get_string (img : list Z) (strtab : shdr) (offset : Z) : list Z :=
   let pos := sh_offset strtab + offset in
-  match (if pos >? zlen img then None else parse_cstring_at img (Z.to_nat pos)) with
+  match parse_cstring_at img (Z.to_nat pos) with     (* past the end: no terminator found, None *)
   | Some s => s
   | None => []
   end.
